@@ -563,15 +563,16 @@ def observe (s : VState) : Op → Obs
   | .probe o => if o < s.count then .probe (probeOwner (s.owner o)) else .none
   | _ => .none
 
+/-- State after an op. A failed execution has no effects (the origin's Set-Cookie never arrives). -/
+def stepOp (tc tr : Table) (s : VState) (op : Op) : VState :=
+  if observe s op = .err then s else runV s (compile tc tr s.count op)
+
 /-- Run a program: final state and the observations, one per op. -/
 def runWith (tc tr : Table) (s : VState) : List Op → VState × List Obs
   | [] => (s, [])
   | op :: ops =>
-    let o := observe s op
-    -- a failed execution has no effects (the origin's Set-Cookie never arrives)
-    let s' := if o = .err then s else runV s (compile tc tr s.count op)
-    let (sf, os) := runWith tc tr s' ops
-    (sf, o :: os)
+    let (sf, os) := runWith tc tr (stepOp tc tr s op) ops
+    (sf, observe s op :: os)
 
 /-- The value model: `Clone` and `R()` with the ideal tables. -/
 def runScope (ops : List Op) : VState × List Obs := runWith idealClone idealReq VState.empty ops
